@@ -230,10 +230,18 @@ inductive Stmt where
   | viewOff
   /-- `SCREEN ,,apage` -/
   | setPage (n : Nat)
+  /-- `SCREEN m[,,apage]` into another video mode (text or graphics, `W × H` pixels, `numPages` pages);
+      `apage = none`: the page arguments are omitted and the active page number is kept -/
+  | setMode (text : Bool) (W H : Int) (numPages : Nat) (apage : Option Nat)
 
 def Stmt.isGraphics : Stmt → Bool
   | .setPage _ => false
+  | .setMode _ _ _ _ _ => false
   | _ => true
+
+def Stmt.isModeSwitch : Stmt → Bool
+  | .setMode _ _ _ _ _ => true
+  | _ => false
 
 /-- ops issued by a drawing statement under the current viewport -/
 def Stmt.ops (v : View) : Stmt → R Ops
@@ -265,6 +273,15 @@ def step (s : Screen) (attr : Nat) : Stmt → R Screen
     | .error e => .error e
     | .ok (ops, v') => .ok { s with view := v', pages := drawTo s s.view.unset attr ops }
   | .viewOff => if s.textMode then .error ifc else .ok { s with view := s.view.unset }
+  | .setMode t w h np a =>
+    -- `Display.screen` → `_set_mode`: new (erased) pages; `Graphics.init_mode` builds a fresh viewport on page 0 of
+    -- the new pages, then `Display.set_page` → `Graphics.set_page` points it at the active page, which is the
+    -- one given or else the one that was active (too high a page number: Illegal function call; the PCjr
+    -- fallback to page 0 is not modelled)
+    let a' := a.getD s.apage
+    if a' ≥ np ∨ w < 1 ∨ h < 1 then .error ifc
+    else .ok { textMode := t, numPages := np, apage := a', gvPage := a', view := View.full w h,
+               pages := fun _ _ _ => 0 }
   | st =>
     if s.textMode then .error ifc else
     match st.ops s.view with
@@ -278,6 +295,15 @@ def run (s : Screen) (attr : Nat) : List Stmt → Screen
     match step s attr st with
     | .ok s' => run s' attr rest
     | .error _ => run s attr rest
+
+/-- a mode switch in which `Graphics.set_page` is skipped when the requested page equals the remembered active
+    page number ("nothing to do"): the fresh viewport of `init_mode` then stays on page 0.  Not the code of
+    /repo - a plausible shortcut, kept to show why `set_page` must run unconditionally after `init_mode`. -/
+def setModeShortcut (s : Screen) (t : Bool) (w h : Int) (np : Nat) (a : Option Nat) : R Screen :=
+  let a' := a.getD s.apage
+  if a' ≥ np ∨ w < 1 ∨ h < 1 then .error ifc
+  else .ok { textMode := t, numPages := np, apage := a', gvPage := if a' = s.apage then 0 else a',
+             view := View.full w h, pages := fun _ _ _ => 0 }
 
 /-! ### the code before the repairs (for the counterexample theorems) -/
 
